@@ -42,7 +42,7 @@ pub fn root() -> String {
 }
 
 pub fn families() -> Vec<Box<dyn DynFamily>> {
-    vec![Box::new(fam::a1::A1), Box::new(fam::a2::A2), Box::new(fam::a3::A3), Box::new(fam::a4::A4), Box::new(fam::a5::A5), Box::new(fam::a6::A6), Box::new(fam::a7::A7), Box::new(fam::a8::A8), Box::new(fam::a9::A9 { locked: true }), Box::new(fam::a9::A9 { locked: false }), Box::new(fam::b1::B1), Box::new(fam::b2::B2), Box::new(fam::b3::B3), Box::new(fam::b4::B4), Box::new(fam::b5::B5), Box::new(fam::b6::B6)]
+    vec![Box::new(fam::a1::A1), Box::new(fam::a2::A2), Box::new(fam::a3::A3), Box::new(fam::a4::A4), Box::new(fam::a5::A5), Box::new(fam::a6::A6), Box::new(fam::a7::A7), Box::new(fam::a8::A8), Box::new(fam::a9::A9 { locked: true }), Box::new(fam::a9::A9 { locked: false }), Box::new(fam::b1::B1), Box::new(fam::b2::B2), Box::new(fam::b3::B3), Box::new(fam::b4::B4), Box::new(fam::b5::B5), Box::new(fam::b6::B6), Box::new(fam::g0::G0)]
 }
 
 fn level_of(prop: &str) -> &'static str {
@@ -134,6 +134,7 @@ fn cmd_check(args: &[String]) -> i32 {
         eprintln!("harness error: no family has an oracle for {}", prop);
         return 2;
     }
+    engine::start_watchdog(prop.clone(), if tier == Tier::Quick { 300 } else { 900 }, root(), seed);
     let t0 = std::time::Instant::now();
     let mut evaluations = 0u64;
     let mut relevant = 0u64;
@@ -169,6 +170,10 @@ fn cmd_check(args: &[String]) -> i32 {
         let tf = std::time::Instant::now();
         let agg = f.run(&cfg);
         let fam_wall = tf.elapsed().as_secs_f64();
+        if agg.harness_panics > 0 {
+            eprintln!("harness error: {} executions of family {} panicked inside the harness (not inside the code under test): {}", agg.harness_panics, f.name(), agg.harness_panic_example.clone().unwrap_or_default().chars().take(600).collect::<String>());
+            return 2;
+        }
         // determinism self-check: a slice of this batch again at two other worker counts, same
         // hashes; the slice is sized to cost a few seconds at most
         let cpu_per_scn = fam_wall * workers as f64 / agg.base_scenarios.max(1) as f64;
@@ -361,6 +366,29 @@ fn cmd_replay(args: &[String]) -> i32 {
             return 2;
         }
     };
+    // a replayed hang must not hang the replay: run it on a thread with a deadline
+    if v["violation"]["oracle"].as_str() == Some("watchdog_hang") {
+        let scn = v["scenario"].clone();
+        let name = fam_name.to_string();
+        let (tx, rx) = std::sync::mpsc::channel();
+        std::thread::spawn(move || {
+            let fams = families();
+            if let Some(f) = fams.iter().find(|f| f.name() == name) {
+                let _ = f.replay_base(&scn);
+            }
+            let _ = tx.send(());
+        });
+        return match rx.recv_timeout(std::time::Duration::from_secs(300)) {
+            Ok(()) => {
+                println!("not reproduced: the scenario finished");
+                0
+            }
+            Err(_) => {
+                println!("VIOLATION property={} replay={}", v["violation"]["property"].as_str().unwrap_or(""), path);
+                1
+            }
+        };
+    }
     let out = match f.replay(&v["scenario"]) {
         Ok(o) => o,
         Err(e) => {
